@@ -247,7 +247,7 @@ pub fn describe_leg(leg: &Leg, thorough: bool) -> Value {
         }),
         Leg::MatrixLogger => json!({
             "kind": "proptest programs sent to one persistent vrun process per feature set that includes logger, recording logger installed",
-            "programs_requested": if thorough { 2_000_000 } else { 160_000 },
+            "programs_requested": if thorough { 8_000_000 } else { 480_000 },
         }),
         Leg::Fuzz { target, runs } => json!({
             "kind": "cargo-fuzz (libFuzzer, AddressSanitizer) campaign over the same byte decoder, oracle inside the target, fresh corpus seeded from harness/vfuzz/seeds, 8 processes",
@@ -266,7 +266,7 @@ pub fn describe_leg(leg: &Leg, thorough: bool) -> Value {
         }),
         Leg::Matrix => json!({
             "kind": "feature-matrix differential: proptest programs sent to one persistent vrun process per feature set",
-            "programs_requested": if thorough { 400_000 } else { 40_000 },
+            "programs_requested": if thorough { 3_000_000 } else { 160_000 },
         }),
         Leg::QueueSweep { jmax_q, jmax_t } => json!({
             "kind": "deterministic boundary sweep (enumeration), sharded over worker processes",
